@@ -293,6 +293,33 @@ fn run_case(case: &Case) -> Check {
             let pat = pattern_string(pattern);
             let (ci, cp) = (cstr(imp), cstr(&pat));
             let file = scratch_file("d");
+            // a third of the cases: another decoder handle, built from the same alist text and name with
+            // another pattern, is alive (and has decoded a frame) while this one is built and used
+            let companion = if calls.len() % 3 == 0 {
+                let n = h.cols;
+                let other = match pattern {
+                    Some(_) => String::new(),
+                    None => {
+                        let d = (2..=n.min(12)).find(|d| n % d == 0).unwrap_or(1);
+                        let mut v = vec!["1"; d];
+                        if d >= 2 {
+                            v[0] = "0";
+                        }
+                        v.join(",")
+                    }
+                };
+                let kept = if other.is_empty() { n } else { n / other.split(',').count() * other.split(',').filter(|t| *t == "1").count() };
+                let (ct, co) = (cstr(&text), cstr(&other));
+                let c = unsafe { ldpc_toolbox_decoder_ctor_alist_string(ct.as_ptr(), ci.as_ptr(), co.as_ptr()) };
+                if !c.is_null() {
+                    let l: Vec<f64> = (0..kept).map(|i| if i % 3 == 0 { -1.5 } else { 2.25 }).collect();
+                    let mut o = vec![0u8; n];
+                    unsafe { ldpc_toolbox_decoder_decode_f64(c, o.as_mut_ptr(), n, l.as_ptr(), l.len(), 3) };
+                }
+                c
+            } else {
+                std::ptr::null_mut()
+            };
             let handle = unsafe {
                 if *via_file {
                     std::fs::write(&file, &text).map_err(|e| Fail::new(INCONCLUSIVE, format!("cannot write scratch file: {e}")))?;
@@ -370,6 +397,9 @@ fn run_case(case: &Case) -> Check {
                 }
             }
             unsafe { ldpc_toolbox_decoder_dtor(handle) };
+            if !companion.is_null() {
+                unsafe { ldpc_toolbox_decoder_dtor(companion) };
+            }
             Ok(())
         }
         Case::Encoder { h, padded, pattern, via_file, messages } => {
@@ -379,6 +409,26 @@ fn run_case(case: &Case) -> Check {
             let file = scratch_file("e");
             let hs = h.to_sparse();
             let reference = Encoder::from_h(&hs);
+            // half of the cases: another encoder handle, built from the same alist text with another
+            // pattern, is alive while this one is built and used (handles share nothing)
+            let companion = if messages.len() % 2 == 0 {
+                let other = match pattern {
+                    Some(_) => String::new(),
+                    None => {
+                        let n = h.cols;
+                        let d = (2..=n.min(12)).find(|d| n % d == 0).unwrap_or(1);
+                        let mut v = vec!["1"; d];
+                        if d >= 2 {
+                            v[d - 1] = "0";
+                        }
+                        v.join(",")
+                    }
+                };
+                let (ct, co) = (cstr(&text), cstr(&other));
+                unsafe { ldpc_toolbox_encoder_ctor_alist_string(ct.as_ptr(), co.as_ptr()) }
+            } else {
+                std::ptr::null_mut()
+            };
             let handle = unsafe {
                 if *via_file {
                     std::fs::write(&file, &text).map_err(|e| Fail::new(INCONCLUSIVE, format!("cannot write scratch file: {e}")))?;
@@ -401,6 +451,14 @@ fn run_case(case: &Case) -> Check {
             if handle.is_null() {
                 return Err(Fail::new("ctor-null", format!("encoder constructor returned null for a valid systematic matrix and pattern {pat:?}")));
             }
+            if !companion.is_null() {
+                // with both handles alive: the same text with a malformed pattern is still refused
+                let (ct, cb) = (cstr(&text), cstr("1,x"));
+                let bad = unsafe { ldpc_toolbox_encoder_ctor_alist_string(ct.as_ptr(), cb.as_ptr()) };
+                if !bad.is_null() {
+                    return Err(Fail::new("ctor-not-null", "encoder constructor returned a handle for the pattern \"1,x\" while other handles built from the same alist text were alive".to_string()));
+                }
+            }
             let punct = pattern.as_ref().map(|p| Puncturer::new(p));
             for (i, m) in messages.iter().enumerate() {
                 let cw = enc.encode(&Array1::from_iter(m.iter().map(|&b| if b == 1 { GF2::one() } else { GF2::zero() })));
@@ -420,6 +478,9 @@ fn run_case(case: &Case) -> Check {
                 }
             }
             unsafe { ldpc_toolbox_encoder_dtor(handle) };
+            if !companion.is_null() {
+                unsafe { ldpc_toolbox_encoder_dtor(companion) };
+            }
             Ok(())
         }
         Case::BadDecoder { alist, imp, pattern, via_file } => {
@@ -589,7 +650,7 @@ pub fn property() -> Property {
         id: "C19",
         subs: vec![Box::new(Sub {
             name: "c-api",
-            rule: "each case in a child process (abort isolation). Decoder handles: alist (own writer, padded or not, as text or as a file) of a C01-style matrix, one of the 36 names, pattern '' or a 0/1 list with >= one 1 whose length (up to 12) divides n (n up to 14, in a fifth of the cases up to 36, one case in 26 with 250..=330 columns), then 1..=8 decode calls (f64 or f32 buffers of the punctured length, output_len in 0..=n, one call in twelve with infinite or NaN LLRs, skipped when the Rust decoder itself panics on them; limits incl. 0 and, for frames that a fresh Rust decoder converges on within 64 iterations, 10^6, 2^31-1, 2^31 and 2^32-1): return value = iterations / -1 and the output = leading bits of what a fresh Rust decoder returns for Puncturer::depuncture(llrs) (f32 widened); guard bytes behind the buffer untouched. Encoder handles: C02-style matrices (one in 26 with 60..=140 rows or 200..=1100 message bits), pattern, 1..=4 messages: output = punctured Encoder::encode; a singular tail must give null. One path used three times (file holds H1, is overwritten with H2, is deleted): the second handle decodes as the Rust decoder of H2, the third constructor returns null. Failing constructors: malformed alist texts (C08 generator, filtered to texts the Rust parser rejects), unknown names, malformed patterns, missing file, directory instead of file, singular tail, names / patterns that are not valid UTF-8 -> null. Non-trivial = decoder handle with >= 2 calls, encoder with a pattern, or a failing constructor; inner = decode calls",
+            rule: "each case in a child process (abort isolation). Decoder handles (a third of them built and used while another handle from the same alist text and name with another pattern is alive and has decoded a frame): alist (own writer, padded or not, as text or as a file) of a C01-style matrix, one of the 36 names, pattern '' or a 0/1 list with >= one 1 whose length (up to 12) divides n (n up to 14, in a fifth of the cases up to 36, one case in 26 with 250..=330 columns), then 1..=8 decode calls (f64 or f32 buffers of the punctured length, output_len in 0..=n, one call in twelve with infinite or NaN LLRs, skipped when the Rust decoder itself panics on them; limits incl. 0 and, for frames that a fresh Rust decoder converges on within 64 iterations, 10^6, 2^31-1, 2^31 and 2^32-1): return value = iterations / -1 and the output = leading bits of what a fresh Rust decoder returns for Puncturer::depuncture(llrs) (f32 widened); guard bytes behind the buffer untouched. Encoder handles (half of them built and used while another handle from the same alist text with another pattern is alive): C02-style matrices (one in 26 with 60..=140 rows or 200..=1100 message bits), pattern, 1..=4 messages: output = punctured Encoder::encode; a singular tail must give null. One path used three times (file holds H1, is overwritten with H2, is deleted): the second handle decodes as the Rust decoder of H2, the third constructor returns null. Failing constructors: malformed alist texts (C08 generator, filtered to texts the Rust parser rejects), unknown names, malformed patterns, missing file, directory instead of file, singular tail, names / patterns that are not valid UTF-8 -> null. Non-trivial = decoder handle with >= 2 calls, encoder with a pattern, or a failing constructor; inner = decode calls",
             cases: |t| t.pick(12_000, 400_000),
             strategy,
             check,
